@@ -20,6 +20,9 @@ func evalC15(p prog.Program) Outcome {
 	out := Outcome{Fail: res.Fail, Hist: res.Hist, Ev: res.Ev}
 	if res.Fail == nil {
 		out.NonTrivial = res.Ev["undo_redo_executed"] > 0 && (res.Ev["concurrent_pairs"] > 0 || res.Ev["client_gc_purged"] > 0)
+		if p.Cfg.Flags["styleonly"] == 1 {
+			out.Ev["styleonly_stratum"] = 1
+		}
 		if p.Cfg.Flags["serial"] == 1 {
 			out.Ev["serial_stratum"] = 1
 			// no concurrency by construction: non-trivial = an undo/redo ran on a multi-client history
@@ -47,7 +50,22 @@ func genC15() *rapid.Generator[prog.Program] {
 		MinClients: 2, MaxClients: 3, MaxSteps: pick(20, 32),
 		EditOps: serialOps, SchedOps: []string{"undo", "undo", "undo", "undo", "redo", "redo", "round"}, SyncWeight: 1,
 	})
+	// Style-only stratum: after the base state nobody changes the text content;
+	// every client styles sub-ranges (splitting nodes), undoes and redoes its
+	// styles (the only way the Go SDK removes an attribute) while the peers
+	// style the same characters concurrently.
+	styleonly := prog.Gen(prog.GenOpts{
+		MinClients: 2, MaxClients: 3, MaxSteps: pick(20, 32),
+		EditOps: []string{"tstyle", "tstyle", "tstyle", "cinc"}, SchedOps: []string{"undo", "undo", "undo", "redo", "redo", "round"}, SyncWeight: 4, OfflineBias: true,
+	})
 	return rapid.Custom(func(t *rapid.T) prog.Program {
+		if rapid.IntRange(0, 7).Draw(t, "styleonly") == 0 {
+			p := styleonly.Draw(t, "p")
+			p.Steps = append(append([]prog.Step{}, c15Base...), p.Steps...)
+			p.Cfg.Flags = map[string]int{"styleonly": 1}
+			p.Cfg.ClientNoGC = rapid.IntRange(0, 2).Draw(t, "nogc") == 0
+			return p
+		}
 		if rapid.IntRange(0, 3).Draw(t, "serial") == 0 {
 			p := serial.Draw(t, "p")
 			p.Steps = append(append([]prog.Step{}, c15Base...), p.Steps...)
@@ -67,7 +85,10 @@ func genC15() *rapid.Generator[prog.Program] {
 				}
 			}
 			p.Cfg.Flags = map[string]int{"serial": 1}
-			p.Cfg.ClientNoGC = rapid.IntRange(0, 2).Draw(t, "nogc") == 0
+			// no client GC in this stratum: with several writers the known
+			// "GC vs undo" defects (F33 re-creation, F49 operations on purged
+			// targets, F58) all fire - each needs some replica to have purged
+			p.Cfg.ClientNoGC = true
 			return p
 		}
 		p := base.Draw(t, "p")
